@@ -164,7 +164,8 @@ func SplitGoal(g *Term, max int) []*Term {
 
 // isElemArrayTerm: the term is (or operates on) an element array (indexed by 64-bit vectors), i.e. slice contents.
 func isElemArrayTerm(x *Term) bool {
-	if x.S.Kind == "Array" && (x.S.Idx.Kind == "BV" || (x.S.Elem.Kind == "Array" && x.S.Elem.Idx.Kind == "BV")) {
+	// slice contents and maps are nested arrays (object -> index/key -> value); plain field components are flat
+	if x.S.Kind == "Array" && (x.S.Idx.Kind == "BV" || x.S.Elem.Kind == "Array") {
 		return true
 	}
 	return false
@@ -183,44 +184,113 @@ func hasArrayOps(t *Term, seen map[*Term]bool) bool {
 // trigger: a select(arr, idx) subterm of a quantified fact whose index mentions the bound variable.
 type trigger struct {
 	arr, idx, base *Term
-	plain        bool // idx is exactly the bound variable
+	v            *Term // the quantified variable this trigger binds
+	plain        bool  // idx is exactly the bound variable
 }
 
-// AssumeForall adds a quantified fact (instantiated engine-side).
+// AssumeForall adds a quantified fact (instantiated engine-side). The body is miniscoped: conjuncts are
+// registered separately, each quantified only over the variables it mentions (none: a ground assumption).
 func (vc *VC) AssumeForall(vars []*Term, guard, body *Term, label string) {
-	f := Fact{Body: Implies(guard, body), Vars: vars, Label: label}
+	var tag interface{}
 	if guard != True {
-		f.Tag = vc.CurTag
+		tag = vc.CurTag
 	}
-	if len(vars) == 1 {
-		v := vars[0]
-		seen := map[*Term]bool{}
-		have := map[string]bool{}
-		Walk(f.Body, seen, func(x *Term) {
-			if x.Op != "select" || !x.Args[1].S.Eq(v.S) || v.S.Kind != "BV" {
-				return
+	for _, piece := range miniscope(vars, Implies(guard, body)) {
+		f := Fact{Body: piece.body, Vars: piece.vars, Label: label, Tag: tag}
+		if len(f.Vars) == 0 {
+			f.Vars = nil
+			if f.Body == True {
+				continue
 			}
-			if !mentions(x.Args[1], v) || mentions(x.Args[0], v) {
-				return
+			vc.Facts = append(vc.Facts, f)
+			continue
+		}
+		computeTrigs(&f)
+		vc.Facts = append(vc.Facts, f)
+	}
+}
+
+type scoped struct {
+	body *Term
+	vars []*Term
+}
+
+// miniscope splits forall vars. (H => (P1 and P2 ...)) into one formula per conjunct with only the variables
+// that occur in it.
+func miniscope(vars []*Term, body *Term) []scoped {
+	var out []scoped
+	var rec func(hyp, t *Term)
+	rec = func(hyp, t *Term) {
+		switch {
+		case t.Op == "and":
+			for _, a := range t.Args {
+				rec(hyp, a)
 			}
-			tr := trigger{arr: x.Args[0], idx: x.Args[1]}
+		case t.Op == "=>":
+			rec(And(hyp, t.Args[0]), t.Args[1])
+		default:
+			p := Implies(hyp, t)
+			var vs []*Term
+			for _, v := range vars {
+				if mentions(p, v) {
+					vs = append(vs, v)
+				}
+			}
+			out = append(out, scoped{p, vs})
+		}
+	}
+	rec(True, body)
+	if len(out) > 64 {
+		return []scoped{{body, vars}}
+	}
+	return out
+}
+
+// computeTrigs finds, for each quantified variable, select patterns whose index mentions only that variable
+// (plain v, or base+v for bit-vectors) and whose array mentions no quantified variable.
+func computeTrigs(f *Fact) {
+	f.Trigs = nil
+	isVar := map[*Term]bool{}
+	for _, v := range f.Vars {
+		isVar[v] = true
+	}
+	mentionsAny := func(t *Term, except *Term) bool {
+		found := false
+		Walk(t, map[*Term]bool{}, func(x *Term) {
+			if isVar[x] && x != except {
+				found = true
+			}
+		})
+		return found
+	}
+	have := map[string]bool{}
+	Walk(f.Body, map[*Term]bool{}, func(x *Term) {
+		if x.Op != "select" {
+			return
+		}
+		for _, v := range f.Vars {
+			if !x.Args[1].S.Eq(v.S) || !mentions(x.Args[1], v) {
+				continue
+			}
+			if mentionsAny(x.Args[1], v) || mentionsAny(x.Args[0], nil) {
+				continue
+			}
+			tr := trigger{arr: x.Args[0], idx: x.Args[1], v: v}
 			if x.Args[1] == v {
 				tr.plain = true
 			} else {
-				// linear pattern base + v: base = idx[v := 0]; valid iff idx == base + v syntactically checkable by construction
-				if !linearIn(x.Args[1], v) {
-					return
+				if v.S.Kind != "BV" || !linearIn(x.Args[1], v) {
+					continue
 				}
 				tr.base = Subst(x.Args[1], map[string]*Term{v.Name: BVLit(0, v.S.W)}, map[*Term]*Term{})
 			}
-			k := fmt.Sprintf("%d|%d", tr.arr.id, tr.idx.id)
+			k := fmt.Sprintf("%d|%d|%d", tr.arr.id, tr.idx.id, v.id)
 			if !have[k] {
 				have[k] = true
 				f.Trigs = append(f.Trigs, tr)
 			}
-		})
-	}
-	vc.Facts = append(vc.Facts, f)
+		}
+	})
 }
 
 func mentions(t, v *Term) bool {
@@ -398,6 +468,11 @@ func (vc *VC) symsOf(t *Term, limit int) map[string]bool {
 // that many symbol-sharing hops of the goal and guard (dropping hypotheses is sound for validity).
 func (vc *VC) BuildQueryRel(o *Obligation, goal *Term, extra []*Term, light bool, depth int) *Query {
 	allDefs := false
+	broad := vc.Broad
+	if depth >= 1000 {
+		broad = true
+		depth -= 1000
+	}
 	if depth >= 100 {
 		allDefs = true
 		depth -= 100
@@ -650,12 +725,66 @@ func (vc *VC) BuildQueryRel(o *Obligation, goal *Term, extra []*Term, light bool
 		}
 		return r
 	}
+	// heap component name underlying an array term (versions and objects ignored)
+	compMemo := map[*Term]string{}
+	var compName func(t *Term, d int) string
+	compName = func(t *Term, d int) string {
+		if r, ok := compMemo[t]; ok {
+			return r
+		}
+		r := ""
+		switch {
+		case d > 100:
+		case t.Op == "const":
+			if strings.HasPrefix(t.Name, "H.") {
+				r = t.Name
+				if k := strings.LastIndex(r, "!"); k > 0 {
+					r = r[:k]
+				}
+				if strings.HasPrefix(r, "H._") {
+					// unmaterialised-after-havoc version: H._<epoch>.<key>
+					if k := strings.Index(r[3:], "."); k >= 0 {
+						r = "H." + r[3+k+1:]
+					}
+				}
+			} else if di, ok := vc.defs[t.Name]; ok && di < o.NFacts {
+				r = compName(facts[di].Body.Args[1], d+1)
+			}
+		case t.Op == "select" || t.Op == "store" || t.Op == "ite":
+			k := 0
+			if t.Op == "ite" {
+				k = 1
+			}
+			r = compName(t.Args[k], d+1)
+		}
+		compMemo[t] = r
+		return r
+	}
+	preciseOnly := false
 	related := func(a, b *Term) bool {
+		if preciseOnly {
+			ra, rb := arrRoots(a, 0), arrRoots(b, 0)
+			for k := range ra {
+				if rb[k] {
+					return true
+				}
+			}
+			return false
+		}
+		if a.S.Kind == "Array" && a.S.Idx.Kind != "BV" {
+			ca, cb := compName(a, 0), compName(b, 0)
+			return ca != "" && ca == cb
+		}
 		ra, rb := arrRoots(a, 0), arrRoots(b, 0)
 		for k := range ra {
 			if rb[k] {
 				return true
 			}
+		}
+		// element arrays of non-byte slices: same heap component is close enough (objects are often named differently)
+		if a.S.Kind == "Array" && a.S.Elem.Kind != "BV" || (a.S.Kind == "Array" && a.S.Elem.Kind == "BV" && a.S.Elem.W != 8) {
+			ca, cb := compName(a, 0), compName(b, 0)
+			return ca != "" && ca == cb
 		}
 		return false
 	}
@@ -685,9 +814,9 @@ func (vc *VC) BuildQueryRel(o *Obligation, goal *Term, extra []*Term, light bool
 	// the instances generated so far (broad: by every select of the query).
 	var drivers []*Term
 	if os.Getenv("GOVC_BROAD") != "" {
-		vc.Broad = true
+		broad = true
 	}
-	if !vc.Broad {
+	if !broad {
 		dseen := map[*Term]bool{}
 		dincl := map[int]bool{}
 		dwork := []*Term{o.Guard, neg}
@@ -705,25 +834,101 @@ func (vc *VC) BuildQueryRel(o *Obligation, goal *Term, extra []*Term, light bool
 			})
 		}
 	}
-	for round := 0; round < 8; round++ {
+	// important facts first (invariants, contracts, cuts); bookkeeping facts (reference bounds, monotone flags) last
+	prio := func(f *Fact) int {
+		switch {
+		case strings.HasPrefix(f.Label, "lockinv"), f.Label == "loop-inv", f.Label == "cut", f.Label == "spec-forall", strings.HasPrefix(f.Label, "post:"), f.Label == "requires":
+			return 0
+		case f.Label == "ref-bound", f.Label == "observe-monotone":
+			return 2
+		}
+		return 1
+	}
+	sort.SliceStable(qfacts, func(i, j int) bool { return prio(qfacts[i]) < prio(qfacts[j]) })
+	nLow := 0
+	nq0 := len(qfacts)
+	for round := 0; round < 6; round++ {
 		var newAsserts []*Term
 		// ground selects that drive instantiation
 		type gsel struct{ arr, idx *Term }
 		var gsels []gsel
 		seenS := map[*Term]bool{}
 		src := asserts
-		if !vc.Broad {
+		if !broad {
 			src = drivers
 		}
 		for _, a := range src {
 			Walk(a, seenS, func(x *Term) {
-				if x.Op == "select" && x.Args[0].S.Idx.Kind == "BV" {
+				if x.Op == "select" {
 					gsels = append(gsels, gsel{x.Args[0], x.Args[1]})
 				}
 			})
 		}
 		pool := collectIndexTerms(asserts, vc.Skolems)
-		for _, f := range qfacts {
+		usedNow := usedConsts(asserts)
+		lastLow, lastBefore := false, 0
+		for fi := 0; fi < len(qfacts); fi++ {
+			if lastLow {
+				nLow += ninst - lastBefore
+			}
+			f := qfacts[fi]
+			lastLow, lastBefore = prio(f) == 2, ninst
+			preciseOnly = f.Label == "ref-bound"
+			if ninst > 3000 {
+				break
+			}
+			if prio(f) == 2 {
+				if nLow > 400 {
+					continue
+				}
+			}
+			if len(f.Vars) > 1 && len(f.Trigs) > 0 {
+				// staged instantiation: bind one variable through its trigger; the partially instantiated fact
+				// (fewer variables) joins the list and is processed like any other
+				for ti, tr := range f.Trigs {
+					for _, gs := range gsels {
+						if !gs.idx.S.Eq(tr.v.S) || !related(gs.arr, tr.arr) {
+							continue
+						}
+						var val *Term
+						if tr.plain {
+							val = gs.idx
+						} else {
+							if !gen0[gs.idx] {
+								continue
+							}
+							val = BVBin("bvsub", gs.idx, tr.base)
+						}
+						key := fmt.Sprintf("%p|%d|%d", f, ti, val.id)
+						if done[key] {
+							continue
+						}
+						done[key] = true
+						var rest []*Term
+						for _, ov := range f.Vars {
+							if ov != tr.v {
+								rest = append(rest, ov)
+							}
+						}
+						for _, piece := range miniscope(rest, Subst(f.Body, map[string]*Term{tr.v.Name: val}, map[*Term]*Term{})) {
+							if len(piece.vars) == 0 {
+								if piece.body != True {
+									newAsserts = append(newAsserts, piece.body)
+									ninst++
+								}
+								continue
+							}
+							nf := &Fact{Body: piece.body, Vars: piece.vars, Label: f.Label, Tag: f.Tag}
+							computeTrigs(nf)
+							qfacts = append(qfacts, nf)
+						}
+						if len(qfacts) > nq0+400 {
+							break
+						}
+					}
+				}
+				continue
+			}
 			if len(f.Vars) == 1 && len(f.Trigs) > 0 {
 				v := f.Vars[0]
 				for ti, tr := range f.Trigs {
@@ -746,7 +951,7 @@ func (vc *VC) BuildQueryRel(o *Obligation, goal *Term, extra []*Term, light bool
 				// Skolem constants are always candidates
 				for _, sk := range vc.Skolems {
 					if sk.S.Eq(v.S) {
-						if _, used := usedConsts(asserts)[sk.Name]; used {
+						if _, used := usedNow[sk.Name]; used {
 							addInst(f, map[string]*Term{v.Name: sk}, fmt.Sprintf("%p|sk|%d", f, sk.id), &newAsserts)
 						}
 					}
@@ -833,7 +1038,7 @@ func (vc *VC) BuildQueryRel(o *Obligation, goal *Term, extra []*Term, light bool
 			pull(t)
 		}
 		drivers = append(drivers, asserts[nb:]...)
-		if ninst > 4000 {
+		if ninst > 3000 {
 			break
 		}
 	}
@@ -981,7 +1186,7 @@ func (vc *VC) printQuery(asserts []*Term) *Query {
 	}
 	names := map[*Term]string{}
 	for _, t := range order {
-		if len(t.Args) > 0 && refs[t] > 1 {
+		if len(t.Args) > 0 && refs[t] > 1 && os.Getenv("GOVC_NOSHARE") == "" {
 			nm := fmt.Sprintf("t!%d", t.id)
 			fmt.Fprintf(&b, "(define-fun |%s| () %s ", nm, t.S)
 			writeTermN(&b, t, names, true)
